@@ -972,7 +972,22 @@ mod pipeline {
                 if idx != cnt - 1 {
                     runner = runner.stdout(Redirection::Pipe);
                 }
-                ret.push(runner.popen()?);
+                match runner.popen() {
+                    Ok(p) => ret.push(p),
+                    Err(e) => {
+                        // The commands started so far are waited for when
+                        // `ret` is dropped.  Release the pipe ends we hold:
+                        // a command blocked on a pipe that only we hold
+                        // (e.g. the first one waiting for EOF on its stdin)
+                        // would never exit and the wait would hang.
+                        for i in 0..ret.len() {
+                            ret[i].stdin.take();
+                            ret[i].stdout.take();
+                            ret[i].stderr.take();
+                        }
+                        return Err(e);
+                    }
+                }
             }
             Ok(ret)
         }
